@@ -61,6 +61,7 @@ static Plan c18_gen(uint64_t seed, int tier, uint64_t index) {
     if (r.chance(1, 2)) { p.ops.push_back(Op("close", (int64_t) r.below(2))); }
     if (r.chance(1, 3)) { p.cfg["eager"] = 1; }
     if (r.chance(1, 4)) { p.cfg["eager_srv"] = 1; }
+    if (ver != 2 && r.chance(1, 4)) { static const int MF[] = { 512, 1024, 2048, 4096 }; p.cfg["maxfrag"] = MF[r.below(4)]; }     // max_fragment_length negotiated: full-size fragments in the application writes below
     p.cfg["part_c"] = (int64_t) (1 + r.below(PART_N - 1)); p.cfg["part_s"] = (int64_t) (1 + r.below(PART_N - 1));
     p.cfg["drain_c"] = (int64_t) r.below(DRAIN_N); p.cfg["drain_s"] = (int64_t) r.below(DRAIN_N);
     return p;
@@ -77,6 +78,16 @@ static std::vector<Plan> c18_fixed(int tier) {
         else { p.cfg["suite"] = ver == 1 ? TLS_ECDHE_RSA_WITH_AES_256_GCM_SHA384 : TLS_RSA_WITH_AES_128_CBC_SHA; }
         p.cfg["part_c"] = part; p.cfg["part_s"] = 1 + (part % (PART_N - 1)); p.cfg["drain_c"] = part % DRAIN_N; p.cfg["drain_s"] = (part + 1) % DRAIN_N;
         p.ops.push_back(Op("send", 0, 100, 0)); p.ops.push_back(Op("send", 1, 1000, 1)); p.ops.push_back(Op("pump")); p.ops.push_back(Op("close", 0));
+        v.push_back(p);
+    } } } }
+    // max_fragment_length negotiated (512 / 1024), CBC and GCM suites, application writes of exactly and more than one fragment, every partition
+    for (int ver = 0; ver < 2; ver++) { for (int mf = 0; mf < 2; mf++) { for (int su = 0; su < 2; su++) { for (int part = 1; part < PART_N; part++) {
+        if (ver == 0 && su == 1) { continue; }
+        Plan p; p.seed = 181000 + (uint64_t) (((ver * 2 + mf) * 2 + su) * PART_N + part);
+        p.cfg["ver"] = ver; p.cfg["maxfrag"] = mf ? 1024 : 512; p.cfg["conns"] = 1;
+        p.cfg["suite"] = su ? TLS_ECDHE_RSA_WITH_AES_256_GCM_SHA384 : (ver ? TLS_RSA_WITH_AES_256_CBC_SHA256 : TLS_RSA_WITH_AES_128_CBC_SHA);
+        p.cfg["part_c"] = part; p.cfg["part_s"] = 1 + (part % (PART_N - 1)); p.cfg["drain_c"] = part % DRAIN_N; p.cfg["drain_s"] = (part + 1) % DRAIN_N;
+        p.ops.push_back(Op("send", 0, mf ? 1024 : 512, 0)); p.ops.push_back(Op("send", 1, 4096, 1)); p.ops.push_back(Op("pump")); p.ops.push_back(Op("send", 0, 16385, 1)); p.ops.push_back(Op("pump")); p.ops.push_back(Op("close", 0));
         v.push_back(p);
     } } } }
     return v;
